@@ -33,6 +33,8 @@ MUTANTS = [
     # --- visible only through a crash / interrupt between two statements (stmt_fail / stmt_interrupt) ---
     ("unify_commits_in_two_steps", C, "        self._group_ikey, self._group_key_pointers = unified_key, None", "        self._group_key_pointers = None\n        if len(self) >= 0:  # (any statement in between)\n            self._group_ikey = unified_key", ["C13", "C19"], True),
     ("subset_mask_restored_on_success_only", C, "        return self.agg(**kwargs, mask=subset_mask & global_mask) / self.agg(\n            **kwargs, mask=global_mask\n        )", "        if not isinstance(subset_mask, np.ndarray) or not subset_mask.flags.writeable or global_mask is None:\n            return self.agg(**kwargs, mask=subset_mask & global_mask) / self.agg(**kwargs, mask=global_mask)\n        keep = subset_mask.copy()\n        subset_mask &= np.asarray(global_mask)  # no third mask of full length\n        result = self.agg(**kwargs, mask=subset_mask) / self.agg(**kwargs, mask=global_mask)\n        subset_mask[:] = keep\n        return result", ["C19"], True),
+    # --- visible only when task bodies interleave (pre-emptive pool model); atomic tasks hide it ---
+    ("block_targets_recycled_across_tasks", N, "    target = _build_target_for_groupby(values.dtype, reduce_func_name, ngroups)\n    return _group_by_reduce(\n        group_key=group_key,\n        values=values,\n        target=target,\n        indexer=indexer,\n        reduce_func=getattr(ScalarFuncs, reduce_func_name),\n        check_in_bounds=check_in_bounds,\n    )", "    fresh = _build_target_for_groupby(values.dtype, reduce_func_name, ngroups)\n    key = (str(values.dtype), reduce_func_name, ngroups)\n    target = _RECYCLED.setdefault(key, fresh)  # one scratch target per kind of reduction\n    target[:] = fresh\n    result, count = _group_by_reduce(\n        group_key=group_key,\n        values=values,\n        target=target,\n        indexer=indexer,\n        reduce_func=getattr(ScalarFuncs, reduce_func_name),\n        check_in_bounds=check_in_bounds,\n    )\n    return result.copy(), count\n\n\n_RECYCLED = {}", ["C04", "C03"], True),
     ("slice_mask_written", N, "        values = values[mask]\n        group_key = group_key[mask]\n        mask = None", "        values = values[mask]\n        group_key = group_key[mask]\n        mask = None\n        if isinstance(values, np.ndarray) and values.flags.writeable and values.dtype.kind == \"f\":\n            values[np.isnan(values)] = np.nan", ["C19"], False),
 ]
 
